@@ -6,6 +6,8 @@ CONSTANTS
   KR = 2
   WPats <- NoPats
   RPats <- NoPats
+  PathLens <- DefaultPath
+  SunPathMax = 107
   QueueCap = 250
   Chunk = 4096
   SendMech = "repaired"
